@@ -223,7 +223,7 @@ def r3_codec(ctx):
             digit = any(isinstance(x, ast.Call) and isinstance(x.func, ast.Attribute) and x.func.attr in ("isdigit", "isdecimal", "isnumeric") for x in ast.walk(r.node))
             ctx.check(digit, "C16.R3", r, s, "a suffix is a vector index only when it is an integer", "any suffix after the separator is taken for a vector index", construct="integer suffix test")
     # single-column case: what shape comes back ?
-    singles = [x for x in ast.walk(r.node) if isinstance(x, ast.IfExp) and "isinstance(col, list)" in U(x.test)]
+    singles = [x for x in ast.walk(r.node) if isinstance(x, ast.IfExp) and isinstance(x.test, ast.Call) and U(x.test.func) == "isinstance" and len(x.test.args) == 2 and U(x.test.args[1]) == "list"]
     for x in singles:
         single = x.orelse
         is_list = isinstance(single, ast.Call) and U(single.func) in ("np.array", "list") and single.args and isinstance(single.args[0], ast.List)
@@ -256,13 +256,17 @@ def r4_tensor_json(ctx):
         if isinstance(x, ast.Dict) and all(isinstance(k, ast.Constant) for k in x.keys) and any(U(v).startswith("self._") for v in x.values):
             wkeys = {k.value for k in x.keys}
             wmap = {k.value: U(v) for k, v in zip(x.keys, x.values)}
-    rkeys = {x.slice.value for x in ast.walk(lj.node) if isinstance(x, ast.Subscript) and U(x.value) == "json_data" and isinstance(x.slice, ast.Constant)}
+    jvars = [U(st.targets[0]) for st in statements(lj.node) if isinstance(st, ast.Assign) and isinstance(st.value, ast.Call) and U(st.value.func) in ("json.load", "json.loads")]
+    if not jvars:
+        raise AnalysisError("C16.R4", "anchor vanished: json.load(...) in IndividualParameters._load_json")
+    jv = jvars[0]
+    rkeys = {x.slice.value for x in ast.walk(lj.node) if isinstance(x, ast.Subscript) and U(x.value) == jv and isinstance(x.slice, ast.Constant)}
     ctx.check(wkeys == rkeys and len(wkeys) == 3, "C16.R4", lj, lj.node, f"JSON keys written == keys read: {sorted(wkeys)}", f"JSON writer keys {sorted(wkeys)} != reader keys {sorted(rkeys)}",
               construct="json key sets")
     rmap = {}
     for st in statements(lj.node):
-        if isinstance(st, ast.Assign) and isinstance(st.value, ast.Subscript) and U(st.value.value) == "json_data":
-            rmap[st.value.slice.value] = U(st.targets[0]).replace("ip.", "self.")
+        if isinstance(st, ast.Assign) and isinstance(st.value, ast.Subscript) and U(st.value.value) == jv and isinstance(st.targets[0], ast.Attribute):
+            rmap[st.value.slice.value] = "self." + st.targets[0].attr
     ctx.check(all(rmap.get(k) == v for k, v in wmap.items()), "C16.R4", lj, lj.node, "each key is read back into the attribute it was written from",
               f"JSON reader/writer attribute mapping differs: {wmap} vs {rmap}", construct="json key -> attribute")
     tup = any(isinstance(x, ast.Call) and U(x.func) == "tuple" for x in ast.walk(lj.node))
